@@ -30,7 +30,7 @@ RULE = ('E-hist: BFS from the initial interpreter state over a menu of %d real A
         '<= p preemptions of two real threads (settrace baton scheduler; line / call / opcode granularity) for a set of operation pairs, both '
         'results compared with the sequential references, each failing schedule replayed twice. E-space: re-encoding every C02 / C04-boundary '
         'configuration with the reported version, level and mask reproduces the matrix.' % len(O.OPS))
-BOUNDS = {'quick': 'histories n <= 2 (all ordered pairs); schedules p <= 1 at line granularity for 3 encoder pairs and at call granularity for 2 encoder + 4 serializer pairs',
+BOUNDS = {'quick': 'histories n <= 2 (all ordered pairs); schedules p <= 1 at line granularity for 3 encoder pairs and at call granularity for 2 encoder + 6 serializer / automatic-mask pairs',
           'thorough': 'histories n <= 3 on a 22-operation core menu (n <= 2 on all); p <= 1 at line granularity for all small pairs, at call '
                       'granularity for 6 large pairs, at opcode granularity for 2 pairs; p <= 2 for (fail_mode || make M1) at line and '
                       '(fail_mode || save ppm) at call granularity'}
@@ -40,13 +40,14 @@ ASSUMPTIONS = ['preemption inside C-level calls is impossible under the GIL; mor
                'creation timestamps of EPS/PDF/TeX are masked']
 CHUNK = 4
 
-CORE = ['make_m1_numeric', 'make_m2_alnum', 'make_m3_kanji', 'make_1h', 'make_2_align', 'make_parts', 'make_eci', 'make_hanzi', 'seq_version',
+CORE = ['make_ab', 'make_ab_cd', 'make_q_auto', 'eps_float_tuple', 'eps_int_tuple', 'make_m1_numeric', 'make_m2_alnum', 'make_m3_kanji', 'make_1h', 'make_2_align', 'make_parts', 'make_eci', 'make_hanzi', 'seq_version',
         'seq_count', 'save_png_palette', 'save_png_colorful', 'save_ppm_colormap', 'save_ppm_colormap_b', 'save_svg_colorful', 'save_pdf',
         'matrix_iter_verbose', 'helper_epc', 'cli_terminal', 'fail_overflow', 'fail_colour', 'fail_mode']
 PAIRS_SMALL = [('make_m1_numeric', 'make_m1_other'), ('make_m2_alnum', 'make_m3_byte'), ('make_m1_numeric', 'make_parts'),
                ('make_m3_kanji', 'make_m1_other'), ('fail_mode', 'make_m1_numeric')]
-PAIRS_SAVE = [('ppm_small_a', 'ppm_small_b'), ('png_small', 'svg_small'), ('seq_small', 'make_m2_alnum'), ('ppm_small_a', 'make_m1_numeric')]
-PAIRS_LARGE = [('save_ppm_colormap', 'save_ppm_colormap_b'), ('save_png_palette', 'save_svg'), ('make_1h', 'make_1h_other'),
+PAIRS_SAVE = [('ppm_small_a', 'ppm_small_b'), ('png_small', 'svg_small'), ('seq_small', 'make_m2_alnum'), ('ppm_small_a', 'make_m1_numeric'),
+              ('iter_verbose_v2_a', 'iter_verbose_v2_b'), ('make_1h', 'make_1h_other')]
+PAIRS_LARGE = [('save_ppm_colormap', 'save_ppm_colormap_b'), ('save_png_palette', 'save_svg'),
                ('seq_count', 'make_m2_alnum'), ('save_png_colorful', 'make_m1_numeric'), ('make_m2_alnum', 'fail_overflow')]
 LIBDIR = os.path.dirname(os.path.realpath(segno.__file__))
 
@@ -78,10 +79,12 @@ def run_history(ops):
     """Executed inside a forked child of a pristine process.  Returns list of per-step records."""
     recs = []
     args0 = O.args_digest()
+    tables0 = hist.library_state_hash(only='segno.consts')
     returned = []           # (op index, canonical digest at return time, live object)
     for i, name in enumerate(ops):
         obs, live = O.observe(name)
-        rec = {'op': name, 'obs': O.digest(obs), 'state': hist.library_state_hash(), 'args_ok': O.args_digest() == args0, 'returned_ok': True}
+        rec = {'op': name, 'obs': O.digest(obs), 'state': hist.library_state_hash(), 'args_ok': O.args_digest() == args0, 'returned_ok': True,
+               'tables_ok': hist.library_state_hash(only='segno.consts') == tables0}
         for (j, dig, obj) in returned:
             if O.digest(O.canon(obj)) != dig:
                 rec['returned_ok'] = False
@@ -115,6 +118,10 @@ def judge_history(ops, st, res, refs, acc, s0, states):
         if not rec['args_ok']:
             ok = False
             acc.violation('arguments-modified/%s' % rec['op'], 'operation %s (history %r) modified a shared argument object' % (rec['op'], list(ops[:i])), case)
+        if not rec.get('tables_ok', True):
+            ok = False
+            acc.violation('lookup-table-modified/%s' % rec['op'], 'operation %s (history %r) modified the lookup tables in segno.consts'
+                          % (rec['op'], list(ops[:i])), case)
         if not rec['returned_ok']:
             ok = False
             acc.violation('returned-object-modified/%s' % rec['op'], 'operation %s modified the object returned by step %d of history %r'
